@@ -16,7 +16,7 @@ FOCUS = {
     "rows": ["set", "del", "pop", "update", "index", "sortkey", "sortidx", "clear", "vset"],
     "alias": ["set", "copy", "deepcopy", "slice", "ocopy", "to", "vset", "iop", "dsset", "dscopy"],
 }
-IDX_ALL = ["i0", "im1", "iout", "s02", "s_2", "srev", "s1_", "mask", "maskArr", "maskBad", "maskNone", "ia", "iaArr", "perm", "faArr", "vecIdx"]
+IDX_ALL = ["i0", "im1", "imn", "iout", "s02", "s_2", "srev", "s1_", "mask", "maskArr", "maskBad", "maskNone", "ia", "iaArr", "perm", "faArr", "vecIdx"]
 INVARIANTS = ["Aligned", "KeysConsistent", "HeapOk", "OneRowSelection"]
 PROPERTIES = ["SortIsOnePermutation", "RejectedChangesNothing", "NameIsKey", "DsNameParent", "InPlaceSameObject", "InPlaceFrame",
               "CopiesAreFresh", "ShallowCopySharesMembers", "DeepCopyDisjoint"]
